@@ -324,6 +324,10 @@ class C01(Check):
         usc = max([abs(float(v)) for v in ua if math.isfinite(float(v))] + [0.0])
         for (k, h) in (only if only is not None else m.solves):
             ysc = max(1e-3, max(abs(v) for v in ya))
+            u_in = float(ua[k - 2]) if k >= 2 else 0.0
+            if not math.isfinite(u_in) or abs(u_in) <= 1e-9 * max(usc, ysc / Lsc):
+                out.cls('solve_undefined_for_a_collimated_beam')     # an edit removed the power in front of the solve
+                continue
             out.close('solve_places_marginal_ray', ya[k - 1], h, atol=1e-8 * max(ysc, abs(h), 1.0) + 1e-11 * zmax * usc,
                       surface=k, step=step, op=opname)
 
